@@ -43,6 +43,9 @@ func checkC03(c *Ctx) {
 	c03Arrays(c)
 	c03Passthrough(c)
 	c03QueueAnswered(c)
+	// a response without the id of its request is not a well-formed answer to it (shared with C01)
+	c01IDProvenance(c, false)
+	c.R.Min("R-id-echo", 40)
 }
 
 // ------------------------------------------------------------------ R-error-passthrough / R-fresh-message
